@@ -277,3 +277,26 @@ class Gen:
                 for x in self.candidates(st["prim"]):
                     out.append({f["sel"]: x})
         return out
+
+
+def valid_norm_pinned(L, pname):
+    """the declared set of a primitive type of the layout as merged closed intervals (same text form as canon.valid_norm)"""
+    ivs = []
+    bad = False
+    for it in L["prims"][pname]["valid"]:
+        k = it["k"]
+        if k in ("range", "named"):
+            if it["lo"] < it["hi"]:
+                ivs.append((it["lo"], it["hi"] - 1))
+        elif k in ("member", "int"):
+            ivs.append((it["v"], it["v"]))
+        else:
+            bad = True
+    ivs.sort()
+    out = []
+    for lo, hi in ivs:
+        if out and lo <= out[-1][1] + 1:
+            out[-1] = (out[-1][0], max(out[-1][1], hi))
+        else:
+            out.append((lo, hi))
+    return ("?" if bad else "") + ",".join(str(lo) if lo == hi else f"{lo}..{hi}" for lo, hi in out)
